@@ -64,6 +64,87 @@ func checkC06(c *Ctx) {
 	// rewritten by every generation
 	c.Rule("C06.R4.spec-rewritten", "every generated file other than the SkipExists-protected ones is rewritten on every generation (the embedded spec the run-time security evaluation reads is never stale)", 1)
 	checkWriteUnconditional(c, "C06.R4.spec-rewritten", gen)
+	// two operations merged into one handler slot run under one of the two security requirements
+	checkRouteClash(c, "C06.R5.route-clash", gen)
+	checkSchemesTotal(c, gen)
+}
+
+// checkSchemesTotal: the runtime ignores a required scheme that has no authenticator (the
+// alternative is then satisfied by the remaining schemes), so every security definition of
+// the spec must reach the generated AuthenticatorsFor: the loop that builds the scheme list
+// appends once per definition, under no condition.
+func checkSchemesTotal(c *Ctx, gen *packages.Package) {
+	rule := "C06.R3.schemes-total"
+	c.Rule(rule, "gatherSecuritySchemes appends one GenSecurityScheme per security definition, unconditionally (no skip, no early exit from the loop)", 1)
+	fd := load.FuncDecl(gen, "gatherSecuritySchemes")
+	if fd == nil {
+		c.Anchor(rule, "generator.gatherSecuritySchemes", "not found")
+		return
+	}
+	info := gen.TypesInfo
+	param := info.Defs[fd.Type.Params.List[0].Names[0]]
+	n := 0
+	ast.Inspect(fd.Body, func(nd ast.Node) bool {
+		rs, ok := nd.(*ast.RangeStmt)
+		if !ok || !identIs(info, rs.X, param) {
+			return true
+		}
+		n++
+		appends, guarded, exits := 0, "", ""
+		goan.WalkGuards(info, rs.Body, func(m ast.Node, guards []goan.Lit, _ []ast.Stmt) {
+			switch x := m.(type) {
+			case *ast.AssignStmt:
+				if len(x.Rhs) != 1 {
+					return
+				}
+				call, ok := x.Rhs[0].(*ast.CallExpr)
+				if !ok || !goan.IsIdent(call.Fun, "append") || len(call.Args) < 2 {
+					return
+				}
+				if goan.NamedName(info.TypeOf(call.Args[1])) != "GenSecurityScheme" {
+					return
+				}
+				appends++
+				for _, g := range guards {
+					guarded += " [" + goan.ExprString(g.E) + "]"
+				}
+			case *ast.BranchStmt:
+				if x.Tok == token.CONTINUE || x.Tok == token.BREAK {
+					// a continue/break of an inner loop does not leave this one
+					inner := false
+					ast.Inspect(rs.Body, func(k ast.Node) bool {
+						switch k.(type) {
+						case *ast.RangeStmt, *ast.ForStmt:
+							if k.Pos() <= x.Pos() && x.End() <= k.End() {
+								inner = true
+							}
+						}
+						return true
+					})
+					if !inner {
+						exits += " " + c.posOf(gen, x.Pos())
+					}
+				}
+			case *ast.ReturnStmt:
+				inLit := false
+				ast.Inspect(rs.Body, func(k ast.Node) bool {
+					if fl, ok := k.(*ast.FuncLit); ok && fl.Pos() <= x.Pos() && x.End() <= fl.End() {
+						inLit = true
+					}
+					return true
+				})
+				if !inLit {
+					exits += " " + c.posOf(gen, x.Pos())
+				}
+			}
+		})
+		c.Check(appends == 1 && guarded == "" && exits == "", rule, "generator.gatherSecuritySchemes › one scheme per definition", c.posOf(gen, rs.Pos()), "the append is unconditional and the loop body has no continue/break/return",
+			fmt.Sprintf("a security definition can be left out of the generated API (appends=%d, conditions on the append:%s, loop exits:%s): the runtime treats a required scheme without authenticator as absent, so an alternative naming it together with another scheme is satisfied by the other one alone", appends, guarded, exits))
+		return true
+	})
+	if n == 0 {
+		c.Unk(rule, "generator.gatherSecuritySchemes › loop over the definitions", c.posOf(gen, fd.Pos()), "no range over the definitions parameter found")
+	}
 }
 
 func checkAuthedFlag(c *Ctx, gen *packages.Package) {
